@@ -159,6 +159,9 @@ type caseInfo struct {
 	Range bool `json:"range,omitempty"`
 	// Hist (mode "hist"): several requests on one source extractor (hist.go).
 	Hist *histCase `json:"hist,omitempty"`
+	// X (mode "x"): requests and a script on one rendered document, answered by the
+	// extractor-level model as well (extract.go).
+	X *xCase `json:"x,omitempty"`
 }
 
 // probedSet: which pages carry a per-page result (all of them when no probe list is given).
